@@ -2,6 +2,7 @@ import GoCrypt.Proofs.Parse
 import GoCrypt.Spec.RefParse
 import GoCrypt.Proofs.ParseRef
 import GoCrypt.Gen.Facts
+import GoCrypt.Props.DispatchFlow
 
 /-!
 # C11 — the hash parser terminates, loses no input and leaks no goroutine
@@ -176,4 +177,8 @@ theorem lexer_goroutine_facts :
 #print axioms values_no_delim
 #print axioms groups_surface_once
 
+-- lexPrefix regenerated from the source evaluates to the model's token stream (Props/DispatchFlow.lean)
+#print axioms GoCrypt.DispatchFlow.lexPrefixFlow_eq_model
+#print axioms GoCrypt.DispatchFlow.lexPrefixFlow_closed_form
+#print axioms GoCrypt.DispatchFlow.translated_fragment_lexer
 end GoCrypt.C11
